@@ -177,7 +177,7 @@ func (vc *VC) smtText(o *Obligation) string {
 	if len(o.ReplayQ) > 0 {
 		fmt.Fprintf(&b, "(get-value (%s))\n", strings.Join(o.ReplayQ, " "))
 	}
-	return b.String()
+	return vc.fillStructSorts(b.String())
 }
 
 type solverSpec struct {
@@ -533,4 +533,45 @@ func firstLines(s string, n int) string {
 		ls = ls[:n]
 	}
 	return strings.Join(ls, "\n")
+}
+
+// fillStructSorts replaces the struct-sort placeholder of a code-free query by the declarations of exactly
+// the struct sorts the query mentions (and those they contain).
+func (vc *VC) fillStructSorts(text string) string {
+	const mark = "; @@STRUCT-SORTS@@\n"
+	if !strings.Contains(text, mark) {
+		return text
+	}
+	ss := vc.ss()
+	rest := strings.Replace(text, mark, "", 1)
+	need := map[string]bool{}
+	for changed := true; changed; {
+		changed = false
+		for _, n := range ss.structOrder {
+			if need[n] {
+				continue
+			}
+			used := strings.Contains(rest, n)
+			if !used {
+				for m := range need {
+					if strings.Contains(ss.structDecl[m], n) {
+						used = true
+						break
+					}
+				}
+			}
+			if used {
+				need[n] = true
+				changed = true
+			}
+		}
+	}
+	var b strings.Builder
+	for _, n := range ss.structOrder {
+		if need[n] {
+			b.WriteString(ss.structDecl[n])
+			b.WriteByte('\n')
+		}
+	}
+	return strings.Replace(text, mark, b.String(), 1)
 }
